@@ -256,9 +256,11 @@ class CFG:
             s = siblings[j]
             if isinstance(s, ast.Assign) and len(s.targets) == 1 and isinstance(s.targets[0], ast.Name) \
                     and s.targets[0].id == name:
+                self._flag_at = j
                 return s.value
             if isinstance(s, ast.AnnAssign) and isinstance(s.target, ast.Name) and s.target.id == name \
                     and s.value is not None:
+                self._flag_at = j
                 return s.value
             if name in assigned_names(s):
                 return None
@@ -284,7 +286,8 @@ class CFG:
             d = self._flag_def(test.id, siblings, idx)
             if d is not None and isinstance(d, (ast.BoolOp, ast.Compare)) or (
                     isinstance(d, ast.UnaryOp) and isinstance(d.op, ast.Not)):
-                return self._cond(d, tnode, fnode, site, ctx, None, 0)
+                # flags the definition itself reads (`value_ok = type_ok and ...`) are looked up before that definition
+                return self._cond(d, tnode, fnode, site, ctx, siblings, self._flag_at)
             if d is not None and isinstance(d, ast.Call):
                 flagdef = d  # keep the name as the tested atom, remember what it was bound to
         t = self._new("test", expr=test, site=site)
@@ -295,6 +298,13 @@ class CFG:
         ff = self._new("fact", expr=test, pol=False, site=site, info=flagdef)
         self._edge(t, ft)
         self._edge(t, ff)
+        if flagdef is not None:
+            # the outcome of the flag is the outcome of the call it was bound to: both facts lie on the edge
+            ft2 = self._new("fact", expr=flagdef, pol=True, site=site, info=None)
+            ff2 = self._new("fact", expr=flagdef, pol=False, site=site, info=None)
+            self._edge(ft, ft2)
+            self._edge(ff, ff2)
+            ft, ff = ft2, ff2
         self._edge(ft, tnode)
         self._edge(ff, fnode)
         if ctx["handlers"] and _may_raise(test):
